@@ -148,6 +148,11 @@ def finish(ctx, t0, seed, explanation, rule_text, extra_cov=None, selftest=None)
         "samples": samples[:40],
         "clauses": {c: ctx.clause_desc.get(c, "") for c in clauses},
         "program": ctx.prog.stats(),
+        "canonicalisation": {
+            "rule": "calls to package functions outside coaplint/baseline_functions.txt are expanded in place; pure single-assignment temporaries are propagated (DESIGN E0b)",
+            "inlined_helpers": [r for r in getattr(ctx.prog, "inlined", []) if "helper" in r],
+            "copy_propagated_temporaries": sum(r.get("copy_propagated_temporaries", 0) for r in getattr(ctx.prog, "inlined", [])),
+        },
         "anchors_resolved": sorted(ctx.prog.touched),
         "functions_with_obligations": sorted({o["function"] for o in ctx.obligations if o["function"] != "-"}),
         "known_findings_printed": [v.as_dict() for v in known_hit],
